@@ -76,6 +76,9 @@ def run_vector(vec, emb, pool, eid, recv=None):
         each = each_of(tiers, lambda t: t.new().insertSpace(g(a["s"]), g(a["d"]), a["mode"]), pj)
     elif op == "editTg":
         each = each_of(tiers, lambda t: t.new().editTimestamps(g(a["o"]), a["mode"]), pj)
+    elif op == "alignTg":
+        reft = recv.getTier(a["ref"]).new()
+        each = each_of(tiers, lambda t: t.new() if t.name == a["ref"] else t.new().dejitter(reft, g(a["D"])), pj)
     elif op == "mergeTg":
         names = a["names"]
         if all(n in recv.tierNames for n in names):
@@ -120,6 +123,10 @@ def run_vector(vec, emb, pool, eid, recv=None):
                 ret = recv.mergeTiers(list(a["names"]), a["preserve"])
             elif op == "newTg":
                 ret = recv.new()
+            elif op == "alignTg":
+                from praatio import praatio_scripts
+                # the function edits the textgrid it is given: hand it a copy, so that the event shows input and output
+                ret = praatio_scripts.alignBoundariesAcrossTiers(recv.new(), a["ref"], g(a["D"]))
             elif op == "validateTg":
                 recv.validate(a["mode"])
             elif op == "saveTg":
@@ -253,6 +260,33 @@ def rand_edit_vectors(ops, n, seed):
             args = {"names": names[: rng.randint(1, len(names))], "preserve": rng.random() < 0.5}
         elif op == "newTg":
             args = {"k": 0}
+        elif op == "alignTg":
+            ref = rng.choice(pre["tiers"])
+            D = rng.choice([1, 2, 5, 40, 300])
+            ts = sorted(set(v for x in ref["ents"] for v in ([x["s"], x["e"]] if "s" in x else [x["t"]])))
+            # the function rejects a reference whose timestamps (from the second one on) are closer than maxDifference
+            # (exactly maxDifference apart: decided by float rounding on the non-dyadic millisecond grid, so counted as dense)
+            dense = any(b2 - a2 <= D for a2, b2 in zip(ts[1:], ts[2:]))
+            # jitter the other tiers around the reference timestamps
+            for t in pre["tiers"]:
+                if t is ref or not ts or rng.random() < 0.3:
+                    continue
+                for x in t["ents"]:
+                    for k in (("s", "e") if "s" in x else ("t",)):
+                        if rng.random() < 0.5:
+                            v = rng.choice(ts) + rng.choice([-D - 1, -D, -1, 0, 1, D, D + 1])
+                            x[k] = min(max(v, 0), HI)
+                if t["kind"] == "I":
+                    es = sorted((x for x in t["ents"] if x["s"] < x["e"]), key=lambda x: (x["s"], x["e"]))
+                    keep, last = [], 0
+                    for x in es:
+                        if x["s"] >= last:
+                            keep.append(x)
+                            last = x["e"]
+                    t["ents"] = keep
+                else:
+                    t["ents"] = sorted(t["ents"], key=lambda x: x["t"])
+            args = {"ref": ref["name"], "D": D, "dense": dense}
         elif op == "validateTg":
             args = {"mode": rng.choice(["silence", "warning", "error"])}
         elif op == "saveTg":
